@@ -442,6 +442,21 @@ fn main() {
             );
         }
     }
+    // ---- a removeparam option combined with another modifier (redirect, redirect-rule, csp) is not a
+    // rule: one rule carries one modifier value, and the parameter to strip must not silently become
+    // the other option's argument
+    for _ in 0..(200 * a.scale) {
+        let p = r.pick(gen::PARAMS);
+        let other = match r.below(4) { 0 => format!("redirect={}", r.pick(gen::RESOURCES)), 1 => format!("redirect-rule={}", r.pick(gen::RESOURCES)), 2 => "csp=script-src 'none'".to_string(), _ => format!("redirect-rule={}", r.pick(gen::PARAMS)) };
+        let pat = if r.chance(1, 2) { format!("||{}^", r.pick(gen::HOSTS)) } else { gen::segs(&mut r, 1, 2) };
+        let line = if r.chance(1, 2) { format!("{}$removeparam={},{}", pat, p, other) } else { format!("{}${},removeparam={}", pat, other, p) };
+        cs.stat("removeparam_with_second_modifier");
+        sm.oracle_evaluations += 1;
+        if let Some(f) = implrun::net::parse_net(&line) {
+            sm.failure(None, &format!("the line {:?} combines removeparam with another modifier and must be rejected; it is loaded with modifier value {:?}", line, f.modifier_option),
+                json!({"rules": [line], "url": format!("https://{}/?{}=1", gen::HOSTS[0], p), "source": "https://a.com/page", "type": "xhr", "mode": 0, "batch": 0, "order": [], "must_reject": true}));
+        }
+    }
     // ---- long URLs: many path segments (around and beyond the tokenizer's 127-token cut-off) and long
     // byte strings; rules with and without an index token (`*$removeparam=q` lives in the fallback bucket)
     {
